@@ -1116,6 +1116,11 @@ static void run_ops(op_t *ops, int nops)
             pthread_t tid;
             pthread_create(&tid, NULL, thr_main, &tb);
             int parked = S.wait_parked(&done, 5000);
+            if (op->n > 4 && op->a[4].len) {
+                /* the configuration file changes while the other threads are in the middle of their calls, right before the fork */
+                op_t w; memset(&w, 0, sizeof w); w.code = 'C'; w.n = 1; w.a = &op->a[4];
+                op_cfg_write(&w);
+            }
             fflush(NULL);
             pid_t pid = fork();
             if (pid == 0) {
